@@ -1088,6 +1088,8 @@ impl<E: Effect> Executor<E> {
     /// Execute up to max_units instruction units for a single process.
     /// Returns (did_work, optional_action) where did_work indicates if any instructions were executed.
     pub fn step(&mut self, max_units: usize, current_time_ms: u64) -> (bool, Option<Action<E>>) {
+        #[cfg(feature = "verif")]
+        let max_units = verif::quantum_override().unwrap_or(max_units);
         // Reclaim slots that settled at count 0 since the last step. Doing it here (a quiescent
         // point — any Action returned by the previous step has been handled by the Environment,
         // and no Rust-local Value handles are live) is what makes deferred reclamation safe.
@@ -1114,6 +1116,9 @@ impl<E: Effect> Executor<E> {
             let Some(instruction) = Self::current_instruction(&proc, &self.functions) else {
                 break; // Process finished or no more instructions in current frame
             };
+
+            #[cfg(feature = "verif")]
+            verif::trace_instruction(&proc);
 
             let step_result = if Self::is_cold(instruction) {
                 // Rare control/concurrency ops use the existing handlers, which expect the
@@ -3142,5 +3147,103 @@ mod heap_stats_tests {
         ex.process_pending_free();
         assert!(!ex.freed[i], "a re-retained slot must not be reclaimed");
         assert!(ex.free.is_empty());
+    }
+}
+
+/// Verification hooks (feature `verif`): read-only views and per-thread test controls.
+#[cfg(feature = "verif")]
+pub mod verif {
+    use super::*;
+    use std::cell::{Cell, RefCell};
+
+    thread_local! {
+        static QUANTUM: Cell<Option<usize>> = const { Cell::new(None) };
+        static TRACE: RefCell<Option<Vec<(usize, usize, usize, usize)>>> = const { RefCell::new(None) };
+    }
+
+    /// Override the time-slice length of every `Executor::step` on this thread.
+    pub fn set_quantum_override(q: Option<usize>) {
+        QUANTUM.with(|c| c.set(q));
+    }
+
+    pub fn quantum_override() -> Option<usize> {
+        QUANTUM.with(|c| c.get())
+    }
+
+    /// Start (Some(vec![])) or stop (None) recording `(function, pc, stack len, frame-relative
+    /// locals len)` before every instruction executed on this thread.
+    pub fn set_trace(t: Option<Vec<(usize, usize, usize, usize)>>) {
+        TRACE.with(|c| *c.borrow_mut() = t);
+    }
+
+    pub fn take_trace() -> Option<Vec<(usize, usize, usize, usize)>> {
+        TRACE.with(|c| c.borrow_mut().take())
+    }
+
+    pub(super) fn trace_instruction(proc: &Process) {
+        TRACE.with(|c| {
+            if let Some(t) = c.borrow_mut().as_mut()
+                && let Some(f) = proc.frames.last()
+            {
+                t.push((
+                    f.function_index,
+                    f.counter,
+                    proc.stack.len(),
+                    proc.locals.len().saturating_sub(f.locals_base),
+                ));
+            }
+        });
+    }
+
+    /// Read-only snapshot of the binary heap's accounting.
+    #[derive(Debug, Clone)]
+    pub struct HeapView {
+        pub refcounts: Vec<u32>,
+        pub freed: Vec<bool>,
+        pub free: Vec<usize>,
+        pub pending_free: Vec<usize>,
+        pub bytes: Vec<Vec<u8>>,
+        pub constant_binaries: Vec<Option<Binary>>,
+    }
+
+    impl<E: Effect> Executor<E> {
+        pub fn verif_heap_view(&self) -> HeapView {
+            HeapView {
+                refcounts: self.refcounts.clone(),
+                freed: self.freed.clone(),
+                free: self.free.clone(),
+                pending_free: self.pending_free.clone(),
+                bytes: self.heap.iter().map(|b| b.to_vec()).collect(),
+                constant_binaries: self.constant_binaries.clone(),
+            }
+        }
+
+        pub fn verif_queue(&self) -> Vec<ProcessId> {
+            self.queue.iter().copied().collect()
+        }
+
+        pub fn verif_parked(&self) -> (Vec<ProcessId>, Vec<ProcessId>, Vec<ProcessId>) {
+            let mut a: Vec<ProcessId> = self.spawning.iter().copied().collect();
+            let mut b: Vec<ProcessId> = self.selecting.iter().copied().collect();
+            let mut c: Vec<ProcessId> = self.effecting.iter().copied().collect();
+            a.sort_unstable();
+            b.sort_unstable();
+            c.sort_unstable();
+            (a, b, c)
+        }
+
+        pub fn verif_process_ids(&self) -> Vec<ProcessId> {
+            let mut v: Vec<ProcessId> = self.processes.keys().copied().collect();
+            v.sort_unstable();
+            v
+        }
+    }
+
+    /// Frame internals that are `pub(crate)`.
+    pub fn frame_locals_base(f: &Frame) -> usize {
+        f.locals_base
+    }
+    pub fn frame_captures_count(f: &Frame) -> usize {
+        f.captures_count
     }
 }
